@@ -88,6 +88,8 @@ Section WithMath.
       let s := sqrt (2 * (1 + c)) in
       let inv := 1 / s in
       FQ (s * c_half) (fx axis * inv) (fy axis * inv) (fz axis * inv).
+  (* the branch the code takes: `cos+1 < consts.Minima` *)
+  Definition frotate_fallback (a b : fvec) : bool := fcosv (funit a) (funit b) + 1 <? c_minima.
 End WithMath.
 
 Definition fvec_eqb (a b : fvec) : bool := feqb_bits (fx a) (fx b) && feqb_bits (fy a) (fy b) && feqb_bits (fz a) (fz b).
@@ -302,12 +304,17 @@ Definition unit_quat (q : dquat) : bool := dnear qtol_exp (dq_norm2 q) d1 d1.
 Definition check_rotation (q : dquat) (a b : dvec) : bool := unit_quat q && same_direction (dq_rot q a) b.
 (* b is a negative multiple of a *)
 Definition exactly_opposite (a b : dvec) : bool := dv_is0 (dv_cross a b) && (dman (dv_dot a b) <? 0).
-(* 1 + cos(a,b) < 2^-16: the zone where the code either takes the half-turn fallback (1 + cos < 1e-10) although b is not -a,
-   or divides by sqrt(2(1+cos)) after cancellation *)
-Definition near_opposite (a b : dvec) : bool :=
+(* 1 + cos(a,b) < 2^-k, decided exactly: a.b < 0 and (a.b)^2 2^(2k) > (2^k - 1)^2 |a|^2 |b|^2 *)
+Definition cos_below (k : Z) (a b : dvec) : bool :=
   let d := dv_dot a b in
-  (dman d <? 0) && negb (exactly_opposite a b) &&
-  dltb (dmul (dmul (dsq (dsub (dshift d1 16) d1)) (dv_dot a a)) (dv_dot b b)) (dshift (dsq d) 32).
+  (dman d <? 0) && dltb (dmul (dmul (dsq (dsub (dshift d1 k) d1)) (dv_dot a a)) (dv_dot b b)) (dshift (dsq d) (2 * k)).
+Definition dv_neg (a : dvec) : dvec := dv_map dneg a.
+(* what the code's fallback branch must still deliver (Quat.rotate_between_fallback): a unit quaternion that turns a onto -a *)
+Definition check_half_turn (q : dquat) (a : dvec) : bool := unit_quat q && same_direction (dq_rot q a) (dv_neg a).
+(* what the generic branch must still deliver when 1+cos is tiny (cancellation in 1+cos): the direction within 2^-30, and
+   | |q|^2 - 1 | <= 2^-16 *)
+Definition check_direction_loose_norm (q : dquat) (a b : dvec) : bool :=
+  same_direction (dq_rot q a) b && dnear (-16) (dq_norm2 q) d1 d1.
 
 (* ================= law checkers on observed float outputs (exact arithmetic) ================= *)
 (* `ex` = every input is a small integer: the observed value must then EQUAL the real-number value; otherwise it must lie within
@@ -477,3 +484,29 @@ Proof.
   - apply dltb0_val in S. rewrite dv_dot_val in S. rewrite (Qdot_compat _ _ _ _ R (veq_refl (vq b))) in S. exact S.
 Qed.
 Close Scope Q_scope.
+
+(* ---- independent judges for UniqueAppend and the degree/radian conversions ---- *)
+Open Scope Z_scope.
+(* x within tol of y, exactly / with the half-ulp slack of one rounded subtraction *)
+Definition within_exact (x y tol : dy) : bool := deqb x y || dleb (dabs (dsub x y)) tol.
+Definition within_loose (x y tol : dy) : bool := deqb x y || dleb (dabs (dsub x y)) (dadd tol (dshift (dabs tol) (-50))).
+Definition closeE (tol : dy) (p q : dvec) : bool :=
+  within_exact (dvx p) (dvx q) tol && within_exact (dvy p) (dvy q) tol && within_exact (dvz p) (dvz q) tol.
+Definition closeL (tol : dy) (p q : dvec) : bool :=
+  within_loose (dvx p) (dvx q) tol && within_loose (dvy p) (dvy q) tol && within_loose (dvz p) (dvz q) tol.
+(* r is the observed result of UniqueAppend(pts, p, eps): unchanged only if some member is close to p, extended by p only if none is *)
+Definition ck_unique_append (eqv : dvec -> dvec -> bool) (pts : list dvec) (p : dvec) (tol : dy) (r : list dvec) : bool :=
+  let same := fix same (a b : list dvec) : bool :=
+                match a, b with [], [] => true | x :: a', y :: b' => eqv x y && same a' b' | _, _ => false end in
+  if same r pts then existsb (fun x => closeL tol x p) pts
+  else same r (pts ++ [p]) && negb (existsb (fun x => closeE tol x p) pts).
+(* pi to 112 binary digits (3.243F6A8885A308D313198A2E0370 hex), independent of the float constants of the code *)
+Definition pi112 : dy := (16312081666030376401667486162748272, -112).
+Definition d180 : dy := (180, 0).
+(* DegreeToRadian(x) * 180 = x * pi and RadianToDegree(x) * pi = x * 180, within 2^-50 relative *)
+Definition ck_d2r (x o : dy) : bool := dnear (-50) (dmul o d180) (dmul x pi112) (dabs (dmul x pi112)).
+Definition ck_r2d (x o : dy) : bool := dnear (-50) (dmul o pi112) (dmul x d180) (dabs (dmul x d180)).
+Definition ck_roundtrip (x o : dy) : bool := dnear (-50) o x (dabs x).
+(* wide range used by the scalar helpers: zero or 2^-1000 <= |x| <= 2^1000 *)
+Definition wide (a : dy) : bool :=
+  let m := Z.abs (dman a) in (m =? 0) || ((-1000 <=? Z.log2 m + dexp a) && (Z.log2 m + dexp a <? 1000)).
